@@ -48,8 +48,10 @@ func Harness_C01_roundtrip() {
 	verif_Known("C01-short-header-read", rd.Cuts > 0)
 	rp := NewStreamProcessor(rd, nil, ctx)
 	total := 0
+	var held []*packet.TransferPacket // what the caller received, kept while it reads on
 	for _, s := range sent {
 		got, n, err := rp.ReadPacket()
+		held = append(held, got)
 		if s.typ.IsEncrypted() && !s.typ.IsHeartbeat() {
 			verif_Assert("C01.read.encrypted_rejected", err != nil)
 			total += n
@@ -76,6 +78,14 @@ func Harness_C01_roundtrip() {
 	}
 	verif_Assert("C01.read.aligned", rd.Pos == len(rd.Data))
 	verif_Assert("C01.read.count", total == len(rd.Data))
+	// the packets handed out earlier are still what was sent: a later read must not write into
+	// memory an earlier packet still points at
+	for i, s := range sent {
+		if held[i] == nil || s.cmd != nil || s.typ.IsHeartbeat() || (s.typ.IsEncrypted() && !s.typ.IsHeartbeat()) {
+			continue
+		}
+		verif_Assert("C01.read.earlier_packets_intact", verif_BytesEq(held[i].Payload, s.body))
+	}
 	verif_Cover("C01.rt.done")
 }
 
